@@ -1,15 +1,15 @@
 SPECIFICATION Spec
 CONSTANTS
   Names <- NamesA
-  Values <- ValuesA
-  Times = {1, 1234567}
+  Values <- ValuesV1
+  Times = {1234567}
   Versions = {1}
   SignCfgs = {1}
   SignKvs = {0}
   DecCfgs = {1, 2}
-  MaxAges = {0, 31}
+  MaxAges = {31}
   MinVersions = {1}
-  EditBytes = {48, 49, 124, 46}
+  EditBytes = {46}
   SigPos = {1, 8}
   ShiftFwd = 4
   ShiftBack = 2
